@@ -116,6 +116,43 @@ Proof.
   lia.
 Qed.
 
+(** C10 over iterator sources (the sources that can be unbounded): once the early-exit signal is
+    out -- or the gate is closed for any other reason -- the rest of the run takes a number of
+    effective steps that depends on the thread bound and the chunk sizes only, whatever the
+    source still holds: the current reader finishes its chunk, every worker processes what it
+    holds, and each leaves at its next pull *)
+Theorem imrun_after_close srclen ordered stop panics sched sched2 :
+  igate (imrunp srclen ordered stop panics sched) = Closed ->
+  ieffective srclen (match r_input_len r with Some _ => true | None => false end) ordered stop panics
+             (m_dospawn r) (m_nextc r) (imrunp srclen ordered stop panics sched) sched2
+  <= 9 * m_maxt r + 3
+     + sum_list (map (fun w => 6 * icsize w + 8) (iws (imrunp srclen ordered stop panics sched))).
+Proof.
+  intros Hc.
+  assert (H1 : forall n h, m_dospawn r n h = true -> n + 2 <= m_maxt r)
+    by (intros n h; apply m_dospawn_bound; exact r_wf).
+  assert (H2 : forall n h c, m_nextc r n h = Some c -> 0 < c)
+    by (intros n h c; apply m_nextc_pos; exact r_wf).
+  pose proof (m_maxt_pos r_wf) as H3. pose proof (m_c0_pos r_wf) as H4.
+  pose proof (imrunp_IGInv srclen ordered stop panics sched) as G.
+  pose proof (@ieffective_after_close srclen (match r_input_len r with Some _ => true | None => false end)
+                ordered stop panics (m_dospawn r) (m_nextc r) (m_maxt r) H1 H2 H3 _ sched2 G Hc) as B.
+  assert (Hb : Forall (HB) (iws (imrunp srclen ordered stop panics sched))).
+  { unfold imrunp. eapply irun_HB; eauto; [apply iinit_IGInv; auto|constructor]. }
+  assert (P : jphi (m_maxt r) (imrunp srclen ordered stop panics sched)
+              <= 9 * m_maxt r + 3
+                 + sum_list (map (fun w => 6 * icsize w + 8) (iws (imrunp srclen ordered stop panics sched))))
+    by (eapply jphi_bound; eauto).
+  lia.
+Qed.
+
+Theorem imrun_signal_closes srclen ordered stop panics sched :
+  iskipped (imrunp srclen ordered stop panics sched) = true ->
+  igate (imrunp srclen ordered stop panics sched) = Closed.
+Proof.
+  unfold imrunp. apply irun_SkInv. intros E. discriminate E.
+Qed.
+
 Lemma ifinished_owned (l : list iworker) : (forall w, In w l -> ifinished w) ->
   Permutation (flat_map iseen l ++ flat_map iaband l) (flat_map own l).
 Proof.
